@@ -15,10 +15,11 @@ CONSTANTS UPs, UJs, StepIds, JobIds, ServerIds, StorageIds, NetIds, CountryIds, 
           MaxList,      \* maximal length of uj_steps / jobs lists
           JFN,          \* UsageJourney lists its patterns' networks as dependents (repaired behaviour)
           CANON,        \* merged chain re-sorted canonically when both parts are present (repaired)
-          Groups        \* also explore two-change grouped updates
+          Groups,       \* also explore two-change grouped updates
+          CheckUpdates  \* FALSE: only the creation order is evaluated
 
 VARIABLES topo, phase, bad
-vars == <<topo, phase, bad>>
+
 
 SeqsUpTo(X, n) == UNION {[1..k -> X] : k \in 0..n}
 Bijections(A, B) == {f \in [A -> B] : \A x, y \in A : x # y => f[x] # f[y]}
@@ -84,16 +85,21 @@ StaleOf(T, cs) ==
     LET T2 == ApplyAll(T, cs, 1)
     IN  StaleAfter(T, T2, cs, {}, JFN, CANON) \cap Relevant(T2)
 
-Init == topo \in Topologies /\ phase = "new" /\ bad = {}
+VARIABLE created      \* stale slots right after System creation (must be empty)
+Init == topo \in Topologies /\ phase = "new" /\ bad = {} /\ created = {}
 Check ==
     /\ phase = "new"
     /\ phase' = "checked"
-    /\ bad' = {cs \in Updates(topo) : StaleOf(topo, cs) # {}}
+    /\ bad' = IF CheckUpdates THEN {cs \in Updates(topo) : StaleOf(topo, cs) # {}} ELSE {}
+    /\ created' = StaleAfterCreation(topo, JFN)
     /\ UNCHANGED topo
 Next == Check
+vars == <<topo, phase, bad, created>>
 Spec == Init /\ [][Next]_vars
 
 NoStale == bad = {}
+(* a freshly created system is a fixed point: nothing is left stale by the creation order *)
+FreshAfterCreation == created = {}
 (* every update of a freshly created system leaves nothing stale -- including "no update" *)
 FreshAtCreation == phase = "new" => bad = {}
 
